@@ -98,7 +98,7 @@ theorem ascE_step (hsem : SemOk sem) {base : Expr} (ax : Axis) (t : NodeTest) (p
   obtain ⟨b, hb, s, rfl, hv⟩ := hv
   split at hv
   · simp only [bind_ok, pure_ok] at hv
-    obtain ⟨r, hr, rfl⟩ := hv
+    obtain ⟨_, _, r, hr, rfl⟩ := hv
     exact cleanupFwd_strict _
   · next hcond =>
     simp only [bind_ok, pure_ok] at hv
